@@ -341,7 +341,7 @@ Lemma step_slot_ok s o :
   | _ => offset s' = offset s
   end.
 Proof.
-  intros Hs. destruct o as [hs from|p count limit|p bs|p hs|ps|p|]; cbn [step].
+  intros Hs. destruct o as [hs from|p count limit|p bs|p hs|ps|p|]; simpl.
   - destruct (schedule_loop hs from s) as [s' ins] eqn:E.
     apply schedule_loop_frame in E as (Hc & Ho & _). rewrite Hc.
     split; [|split]; auto. eapply slot_ok_same; eauto.
@@ -351,58 +351,4 @@ Proof.
     destruct (deliver derive p bs s) as [s' [a e]]. simpl in H. tauto.
   - unfold cancel; simpl. split; [|split]; auto.
   - unfold expire; simpl. split; [|split]; auto.
-  - unfold revoke. destruct (pend_get p (pend s)); simpl; (split; [|split]); auto.
-  - pose proof (results_released s Hs) as H.
-    destruct (results s) as [s' rs]. tauto.
-Qed.
-
-(* the invariant of a whole history *)
-Definition order_inv (cache_len : nat) (start : N) (t : trace) : Prop :=
-  slot_ok (t_state t) /\ length (cache (t_state t)) = cache_len /\
-  offset (t_state t) = start + N.of_nat (length (t_released t)) /\
-  map rnum (t_released t) = Nseq start (length (t_released t)).
-
-Lemma order_inv_step cache_len start t o :
-  order_inv cache_len start t -> order_inv cache_len start (step_trace derive empty_root t o).
-Proof.
-  intros (Hs & Hl & Ho & Hr). unfold step_trace.
-  pose proof (step_slot_ok (t_state t) o Hs) as H.
-  destruct (step derive empty_root (t_state t) o) as [s' out].
-  destruct H as (Hl' & Hs' & Hout).
-  unfold order_inv; simpl.
-  destruct out; try (repeat split; auto; congruence).
-  destruct Hout as (Hm & Ho').
-  repeat split; auto; try congruence.
-  - rewrite Ho', Ho, app_length. lia.
-  - rewrite map_app, app_length, Nseq_app, Hr, Hm, Ho. auto.
-Qed.
-
-Lemma order_inv_init cache_len start : order_inv cache_len start (T (init cache_len start) [] []).
-Proof.
-  unfold order_inv, slot_ok; simpl. repeat split; auto.
-  - intros i r Hr. destruct (nth_in_or_default i (repeat None cache_len) (@None result)) as [Hin|Hd].
-    + apply repeat_spec in Hin. congruence.
-    + congruence.
-  - apply repeat_length.
-  - lia.
-Qed.
-
-Lemma fold_inv {A B} (P : A -> Prop) (f : A -> B -> A) l : forall a,
-  P a -> (forall a b, P a -> P (f a b)) -> P (fold_left f l a).
-Proof. induction l; simpl; auto. Qed.
-
-Lemma order_inv_run cache_len start ops :
-  order_inv cache_len start (run derive empty_root cache_len start ops).
-Proof.
-  unfold run. apply fold_inv.
-  - apply order_inv_init.
-  - intros; apply order_inv_step; auto.
-Qed.
-
-(* C18_order_once *)
-Theorem released_in_order cache_len start ops :
-  map rnum (t_released (run derive empty_root cache_len start ops)) =
-  Nseq start (length (t_released (run derive empty_root cache_len start ops))).
-Proof. apply order_inv_run. Qed.
-
-End Order.
+Show.
